@@ -604,3 +604,206 @@ def check_pool_count(ctx, fb, rule):
                        '(or a job is counted out that was not run): NoJobs() never becomes true / becomes true early, so '
                        'SoftStop + Wait hang or return before the work is done' % unit)
             break
+
+
+# ------------------------------------------------------------------------------------------------ R-WAKE / R-FIFO / R-JOINALL (pool)
+
+class _WakeWalker(_CountWalker):
+    """_CountWalker + ('notify', 'notify_one'|'notify_all', loc) and ('cv-wait', nargs, loc)"""
+
+    def on_node(self, fn, n, st):
+        super().on_node(fn, n, st)
+        if n['k'] == 'CXXMemberCallExpr':
+            last = n['cn'].split('::')[-1]
+            if last in ('notify_one', 'notify_all'):
+                st.events.append(('notify', last, fn.loc(n)))
+            elif last in ('wait', 'wait_for', 'wait_until') and 'condition_variable' in (
+                    n.get('cr', '') + n.get('ot', '') + n['cn']).lower().replace('conditionvariable',
+                                                                              'condition_variable'):
+                st.events.append(('cv-wait', len(n.get('args', [])), fn.loc(n)))
+
+
+def check_pool_wake(ctx, fb, r_wake, r_fifo, r_join):
+    """R-WAKE: the condition-variable discipline that makes "accepted job runs" and "Wait returns" true:
+         W1 every path of Submit that enqueues a job notifies a worker afterwards;
+         W2 every path that sets the stopped bit notifies ALL workers afterwards (each of them has to leave its loop);
+         W3 a worker goes to sleep only after it has seen, under the same lock hold, the queue empty and the pool not
+            stopped (the two conditions whose change is notified) — otherwise the wake-up it needs may already be past.
+       R-FIFO: Submit appends at the back of the queue the workers pop from the front (single worker: submission order).
+       R-JOINALL: Wait() joins every worker thread and detaches none."""
+    P = 'yaclib::FairThreadPool'
+    fns = {}
+    for f in fb.fn.values():
+        if f.clsq == P and f.cfg is not None and 'lambda' not in f.flags:
+            fns.setdefault(f.n + ('(lock)' if f.n == 'Stop' and f.params else ''), f)
+    for need in ('Submit', 'Loop', 'Wait', 'WasStop', 'Stop(lock)'):
+        if need not in fns:
+            ctx.broken('R-WAKE: FairThreadPool::%s not found' % need)
+    stopped = None
+    for n in fns['WasStop'].own_nodes():
+        if n['k'] == 'BinaryOperator' and n.get('op') == '&':
+            stopped = fns['WasStop'].sn(n['ch'][1]).get('v')
+    if stopped is None:
+        ctx.broken('R-WAKE: stopped mask of WasStop() not recognised')
+    G = {P + '::_jobs', P + '::_jobs_count'}
+    # W1
+    key = 'R-WAKE Submit notifies after enqueue'
+    res = _WakeWalker(fb, P, G).run(fns['Submit'])
+    ctx.instance(r_wake, key, dict(paths=len(res)))
+    for st, _ in res:
+        ev = st.events
+        enq = [i for i, e in enumerate(ev) if e[0] == 'enqueue']
+        if enq and not any(e[0] == 'notify' for e in ev[enq[-1] + 1:]):
+            ctx.report(r_wake, key, ev[enq[-1]][3], 'a job is put into the queue and no worker is notified afterwards on '
+                       'this path: an idle worker keeps sleeping and the accepted job never runs')
+            break
+    # R-FIFO
+    key = 'R-FIFO FairThreadPool queue discipline'
+    hows = set()
+    for st, _ in res:
+        hows |= {e[1] for e in st.events if e[0] == 'enqueue'}
+    wl = _WakeWalker(fb, P, G)
+    wl.loop_bound = 2
+    lres = wl.run(fns['Loop'])
+    pops = sum(1 for st, _ in lres for e in st.events if e[0] == 'pop')
+    ctx.instance(r_fifo, key, dict(enqueue=sorted(hows), pops_seen=pops))
+    if not hows or not pops:
+        ctx.broken('R-FIFO: enqueue in Submit / PopFront in Loop not recognised')
+    if hows != {'PushBack'}:
+        ctx.report(r_fifo, key, fns['Submit'].where, 'Submit enqueues with %s while the workers take jobs with PopFront: '
+                   'jobs no longer start in submission order (single worker)' % sorted(hows))
+    # W2: every function that can set the stopped bit (helpers of the class are inlined)
+    key = 'R-WAKE stop notifies every worker'
+    nset = 0
+    for name, f in sorted(fns.items()):
+        if name in ('WasStop', 'WantStop', 'NoJobs', 'Alive', 'Tag', 'Wait') or 'ctor' in f.flags or 'dtor' in f.flags:
+            continue
+        w = _WakeWalker(fb, P, G)
+        w.loop_bound = 2
+        for st, _ in w.run(f):
+            ev = st.events
+            for i, e in enumerate(ev):
+                if e[0] == 'count-op' and e[1] in ('|=', '=') and e[2] is not None and e[2] & stopped:
+                    nset += 1
+                    if not any(x[0] == 'notify' and x[1] == 'notify_all' for x in ev[i + 1:]):
+                        ctx.report(r_wake, key, e[3], 'the stopped bit is set on a path of %s that does not notify_all '
+                                   'afterwards: sleeping workers never learn that they have to return and Wait() '
+                                   'hangs' % f.qn)
+                        break
+    ctx.instance(r_wake, key, dict(paths_setting_the_bit=nset))
+    if not nset:
+        ctx.broken('R-WAKE: no path sets the stopped bit')
+    # W3
+    key = 'R-WAKE Loop sleeps only after testing queue and stop under the same lock hold'
+    nwait = 0
+    reported = False
+    for st, _ in lres:
+        ev = st.events
+        for i, e in enumerate(ev):
+            if e[0] != 'cv-wait':
+                continue
+            nwait += 1
+            if e[1] != 1:
+                ctx.broken('R-WAKE: predicate / timed form of the worker wait is not modelled (%s)' % e[2])
+            j = i - 1
+            while j >= 0 and ev[j][0] not in ('lock', 'cv-wait', 'unlock'):
+                j -= 1
+            window = ev[j + 1:i]
+            saw_empty = any(b[0] == 'branch' and b[2] and any(c.endswith('List::Empty') for c in b[1])
+                            for b in window)
+            saw_running = any(b[0] == 'branch' and not b[2] and any(c.endswith('::WasStop') for c in b[1])
+                              and len([c for c in b[1] if c.startswith(P)]) == 1 for b in window)
+            if not (saw_empty and saw_running) and not reported:
+                reported = True
+                ctx.report(r_wake, key, e[2], 'a worker can go to sleep without having seen %s since it last acquired '
+                           'the lock: the notification for that condition may already have been sent (lost wake-up: '
+                           'the job waits / Wait() hangs)' % ' and '.join(
+                               ([] if saw_empty else ['the queue empty']) +
+                               ([] if saw_running else ['the pool not stopped'])))
+    ctx.instance(r_wake, key, dict(waits_on_paths=nwait))
+    if not nwait:
+        ctx.broken('R-WAKE: the worker loop never waits on the condition variable')
+    # R-JOINALL
+    key = 'R-JOINALL FairThreadPool::Wait'
+    f = fns['Wait']
+    joins = [n for n in f.own_nodes() if n['k'] == 'CXXMemberCallExpr' and n['cn'].split('::')[-1] == 'join']
+    det = [n for g in fns.values() for n in g.own_nodes()
+           if n['k'] == 'CXXMemberCallExpr' and n['cn'].split('::')[-1] == 'detach']
+    loops = [n for n in f.own_nodes() if n['k'] in ('CXXForRangeStmt', 'ForStmt', 'WhileStmt')]
+    ctx.instance(r_join, key, dict(joins=len(joins), loops=len(loops)))
+    if det:
+        ctx.report(r_join, key, fns[[k for k, g in fns.items() if any(n in g.own_nodes() for n in det[:1])][0]].where
+                   if False else f.where, 'a worker thread is detached (%s): Wait() cannot know when it has finished' %
+                   det[0].get('cn'))
+    if not joins or not loops:
+        ctx.report(r_join, key, f.where, 'Wait() does not join the workers in a loop over _workers')
+        return
+    ok = False
+    for lp in loops:
+        body = set(f.descendants(lp['i']))
+        if not any(j['i'] in body for j in joins):
+            continue
+        if lp['k'] == 'CXXForRangeStmt':
+            # range-for over the member container itself: every element is visited
+            txt = ' '.join(f.nodes[d].get('mn', '') for d in f.descendants(lp['i']) if f.nodes[d]['k'] == 'MemberExpr')
+            ok = '_workers' in txt or any(f.nodes[d].get('dn', '').endswith('::_workers') for d in body)
+            early = [d for d in body if f.nodes[d]['k'] in ('BreakStmt', 'ReturnStmt')]
+            if early:
+                ok = False
+        else:
+            # index / iterator loop: must start at 0 / begin() and have no early exit
+            init_ok = False
+            for d in f.descendants(lp['i']):
+                m = f.nodes[d]
+                if m['k'] == 'DeclStmt':
+                    for v in m['vars']:
+                        if 'init' in v:
+                            iv = f.sn(v['init'])
+                            if iv is not None and (iv.get('v') == 0 or iv.get('cn', '').endswith('::begin')):
+                                init_ok = True
+            early = [d for d in body if f.nodes[d]['k'] in ('BreakStmt', 'ReturnStmt')]
+            ok = init_ok and not early
+    if not ok:
+        ctx.report(r_join, key, f.where, 'Wait() does not join every worker (the joining loop skips elements of '
+                   '_workers or leaves early): a job may still be running after Wait() returned')
+
+
+# ------------------------------------------------------------------------------------------------ R-JOBFIELDS
+def check_job_fields(ctx, fb, rule, cls):
+    """Sibling agreement of the two ways an executor-like Job can be finished by its underlying executor: Call() when
+    it runs, Drop() when the executor refuses.  Every member of the class that can hold job nodes (type Node*, or an
+    atomic / list of them) and that Call() reads or writes must be taken by Drop() as well — jobs parked in a member
+    that only Call knows about are neither Called nor Dropped when the executor stops."""
+    rec = fb.records.get(cls)
+    if rec is None:
+        ctx.broken('R-JOBFIELDS: record %s not found' % cls)
+    holders = {cls + '::' + f['n'] for f in rec.fields
+               if 'Node *' in f['t'] or 'Node*' in f['t'] or f['t'].endswith('detail::List') or
+               f['t'].endswith('detail::Stack')}
+    fns = {}
+    for f in fb.fn.values():
+        if f.clsq == cls and f.cfg is not None and f.n in ('Call', 'Drop') and not f.params:
+            fns[f.n] = f
+    if len(fns) != 2 or not holders:
+        ctx.broken('R-JOBFIELDS: Call/Drop or the job-holding members of %s not found (members: %s)' % (
+            cls, sorted(holders)))
+
+    def touched(f, depth=0):
+        out = set()
+        for n in f.own_nodes():
+            if n['k'] == 'MemberExpr' and n.get('dn') in holders:
+                out.add(n['dn'])
+            if depth < 2 and n['k'] in ('CXXMemberCallExpr', 'CallExpr'):
+                g = fb.fn.get(n.get('ck'))
+                if g is not None and g.cfg is not None and (g.clsq == cls or (not g.cls and g.file == f.file)) and \
+                        g.n not in ('Call', 'Drop', 'Submit'):
+                    out |= touched(g, depth + 1)
+        return out
+    c, d = touched(fns['Call']), touched(fns['Drop'])
+    key = 'R-JOBFIELDS %s' % cls
+    ctx.instance(rule, key, dict(job_holding_members=sorted(x.split('::')[-1] for x in holders),
+                                 call=sorted(x.split('::')[-1] for x in c), drop=sorted(x.split('::')[-1] for x in d)))
+    for fld in sorted(c - d):
+        ctx.report(rule, key + ' ' + fld.split('::')[-1], fns['Drop'].where,
+                   '%s can hold jobs (Call() uses it) but Drop() never takes it: when the underlying executor refuses '
+                   'the strand, the jobs parked there are neither Called nor Dropped' % fld.split('::')[-1])
